@@ -222,6 +222,14 @@ func TestVF_C04(t *testing.T) {
 					rec.Fail(rt, "proof-builder-error", det(D, issig, err.Error()))
 					return
 				}
+				// in a signature session the nonce depends on the timestamp, so the contribution is
+				// asked for before anything was committed; it is read again after the proof was made
+				var tsA0 *big.Int
+				var tsVec0 []*big.Int
+				if psig := vfh.Guard(func() { tsA0, tsVec0 = b.TimestampRequestContributions() }); psig != "" {
+					rec.Fail(rt, psig+":TimestampRequestContributions-before-commit", det(D, issig, ""))
+					return
+				}
 				var proof *ProofD
 				if psig := vfh.Guard(func() {
 					var pl ProofList
@@ -346,23 +354,29 @@ func TestVF_C04(t *testing.T) {
 					}
 				}
 				// timestamp request contribution
-				if tsA == nil || tsA.Cmp(proof.A) != 0 {
-					rec.Fail(rt, "timestamp-contribution-A-differs-from-proof-A", det(D, issig, ""))
-					return
-				}
-				if len(tsVec) != len(ms) {
-					rec.Fail(rt, "timestamp-contribution-wrong-length", det(D, issig, fmt.Sprint(len(tsVec))))
-					return
-				}
-				for i, v := range tsVec {
-					if inD[i] {
-						if v == nil || v.Cmp(ms[i]) != 0 {
-							rec.Fail(rt, "timestamp-contribution-disclosed-value-wrong", det(D, issig, fmt.Sprintf("index %d", i)))
+				for _, ts := range []struct {
+					when string
+					a    *big.Int
+					vec  []*big.Int
+				}{{"", tsA, tsVec}, {":asked-before-commit", tsA0, tsVec0}} {
+					if ts.a == nil || ts.a.Cmp(proof.A) != 0 {
+						rec.Fail(rt, "timestamp-contribution-A-differs-from-proof-A"+ts.when, det(D, issig, ""))
+						return
+					}
+					if len(ts.vec) != len(ms) {
+						rec.Fail(rt, "timestamp-contribution-wrong-length"+ts.when, det(D, issig, fmt.Sprint(len(ts.vec))))
+						return
+					}
+					for i, v := range ts.vec {
+						if inD[i] {
+							if v == nil || v.Cmp(ms[i]) != 0 {
+								rec.Fail(rt, "timestamp-contribution-disclosed-value-wrong"+ts.when, det(D, issig, fmt.Sprintf("index %d", i)))
+								return
+							}
+						} else if v == nil || v.Sign() != 0 {
+							rec.Fail(rt, "timestamp-contribution-leaks-hidden-attribute"+ts.when, det(D, issig, fmt.Sprintf("index %d", i)))
 							return
 						}
-					} else if v == nil || v.Sign() != 0 {
-						rec.Fail(rt, "timestamp-contribution-leaks-hidden-attribute", det(D, issig, fmt.Sprintf("index %d", i)))
-						return
 					}
 				}
 			}
